@@ -20,7 +20,7 @@ ASSUMPTIONS = [
     "file names are valid UTF-8; no symlinks/special files",
 ]
 BUDGET = {
-    "quick": {"examples": 350, "workers": 8, "time_cap": 70},
+    "quick": {"examples": 450, "workers": 8, "time_cap": 70},
     "thorough": {"examples": 12000, "workers": 14, "time_cap": 900},
 }
 
